@@ -80,7 +80,7 @@ ASSUMPTIONS = [
 ]
 EXHAUSTIVE = {"quick": False, "thorough": True}
 BUDGET_S = {"quick": 26, "thorough": 420}
-TABLES = ["defaultOnSetattr", "attrsKw", "defineKw", "attribKw", "fieldKw"]
+TABLES = ["defaultOnSetattr", "attrsKw", "defineKw", "attribKw", "fieldKw", "fn_setters_validate"]
 PARALLEL = True   # each case sets, scopes and restores the (per-process) switch itself
 
 LOG: list = []
